@@ -2,7 +2,7 @@
 
 (A) E-dev: deviations from well-formed seeds (the 14 reference-written calendars of C09 + the repository's example .ics
     files): at EVERY line: delete, duplicate, swap with the next, drop the value, drop the name, re-kind BEGIN/END, replace the
-    value by each of 16 junk values, insert each of 50 hostile lines before it; truncation at EVERY byte; wrapping in 64 nested
+    value by each of 16 junk values, insert each of 54 hostile lines before it; truncation at EVERY byte; wrapping in 64 nested
     unknown components.  Quick: all single deviations; thorough: additionally all pairs (insert hostile x junk value) on the
     generated corpus.
 (B) E-enum token soup: every sequence of <= k lines from a 48-line menu, bare and inside VCALENDAR / VEVENT; every byte string
@@ -44,6 +44,9 @@ HOSTILE = (
     # percent-encoded specials in places that are written back raw (URI / CAL-ADDRESS values, parameter values)
     "URL:http://x/%0Ay%0D%0Az", "ATTENDEE;CN=a%0Ab:mailto:a@x?body=l1%0Al2", 'SUMMARY;ALTREP="data:text/plain,a%0Ab%22%3B":s',
     "X-P;X=%22%3B%3A%2C%5C%0D%0A%00:%22%3B%3A%2C%5C%0D%0A%00", "ATTACH:mailto:?body=%0a%2c%3a",
+    # one parameter name several times on a line (also in another letter case), earlier occurrences multi-valued
+    'ATTENDEE;MEMBER="mailto:a@x","mailto:b@x";MEMBER="mailto:c@x":mailto:d@x', "X-PROP;X-P=1;X-P=2;X-P=3:value",
+    "SUMMARY;LANGUAGE=de,en;language=fr:hello", "DTSTART;TZID=Europe/Berlin;TZID=Asia/Tokyo;tzid=UTC:20240101T000000",
 )
 SUBDAILY = "RRULE:FREQ=SECONDLY"
 SOUP = (
